@@ -355,11 +355,11 @@ def check_settings_delta(ctx, eng):
            'guard', node=f8.node)
     f9 = eng.m.func(H + '_acknowledge_settings')
     ok = cm.Every()
-    for p in cm.normal_paths(eng.I.run(f9)):
+    from .c11 import code_facts, handler_paths
+    for p in handler_paths(eng, 'remote'):
         cs = cm.calls_to(p, '_flow_control_change_from_settings')
         if cs:
             a = [cm.show0(x) for x in cs[0].args]
-            from .c11 import code_facts
             ok((a == ['MutableMapping... '] or (
                 len(a) == 2 and a[0].endswith('.original_value') and
                 a[1].endswith('.new_value'))) and
